@@ -48,6 +48,10 @@ INNER = {
     'euclidean': (_eu, lambda v: v, lambda v: v),
     'custom_cubic': (_cube, cbrt, lambda v: v * v * v),
     'custom_double': (_dbl, lambda v: v / 2.0, lambda v: 2.0 * v),
+    # further user-supplied objects (vlib/inner.py): a second class-form object and two instances of one class
+    'custom_abs': (lambda x, y: abs(x - y), lambda v: v, lambda v: v),
+    'custom_pow1.5': (lambda x, y: abs(x - y) ** 1.5, lambda v: v ** (1 / 1.5) if v != inf else inf, lambda v: v ** 1.5),
+    'custom_pow4': (lambda x, y: abs(x - y) ** 4, lambda v: v ** 0.25 if v != inf else inf, lambda v: v ** 4),
 }
 
 
